@@ -1,6 +1,6 @@
 (* C02 - property theorems.  Model: V.C02.Model (SmodelsConvert/SmData call-for-call, SmodelsOutput's acceptance
    conditions); specification-side definitions: V.C02.Spec; reference semantics: V.C02.Sem. *)
-Require Import V.Lib.Base V.Lib.Calls V.Gen.Consts V.Gen.Consts_C02 V.C02.Model V.C02.Spec V.C02.ProofsMap V.C02.ProofsErr.
+Require Import V.Lib.Base V.Lib.Calls V.Gen.Consts V.Gen.Consts_C02 V.C02.Model V.C02.Spec V.C02.ProofsMap V.C02.ProofsErr V.C02.Sem V.C02.ProofsSem V.C02.ProofsIso V.C02.ProofsShape.
 Local Open Scope Z_scope.
 
 (* (1) The atom map.  For EVERY call sequence p (any mix of directives, any number of steps, extensions on or off) that the
@@ -45,3 +45,92 @@ Example c02_errors_nonvacuous :
   wf_from 0 demo = true /\ existsb (unsupported true) demo = false /\ existsb (unsupported false) demo = true /\
   (exists s w out, conv_write true cv0 sw0 demo = Ok (s, w, out)) /\ conv_write false cv0 sw0 demo = Err 1.
 Proof. repeat split; try (vm_compute; reflexivity). eexists; eexists; eexists. vm_compute. reflexivity. Qed.
+
+(* (3) Optimisation.  One step = directives ds (no endStep among them) followed by endStep, started in any reachable state
+   whose minimize_ is empty (the state after initProgram/beginStep or after an earlier endStep).  The minimize statements the
+   converter emits at endStep have strictly ascending, pairwise different priorities (one statement per input priority,
+   lower priorities first), and for every interpretation X of the input atoms and its image X' under the final atom map the
+   cost of the emitted statements at each priority equals the input cost at that priority minus a constant that does not
+   depend on X (the sum of the negative weights: w*[l] = w + (-w)*[not l]).  All emitted weights are >= 0 (cost_norm). *)
+Theorem c02_cost : forall ext ds s0 s1 o1 s' out,
+  forallb notend ds = true -> Forall min_ok ds -> mins s0 = [] -> Inv s0 ->
+  cv_run ext s0 ds = Ok (s1, o1) -> cv_call ext s1 CEnd = Ok (s', out) -> next s' <= 2 ^ smid_bits ->
+  keys_asc (mins s1) /\ min_prios out = map fst (mins s1) /\
+  forall X X', lifts s' X X' -> forall prio, cost_calls out prio X' = cost_calls ds prio X - negs ds prio.
+Proof. exact cost_step. Qed.
+Print Assumptions c02_cost.
+
+Theorem c02_cost_sign : forall ls ls', norm_min ls = Some ls' -> Forall (fun lw => fst lw <> 0) ls ->
+  Forall (fun lw => 0 <= snd lw) ls' /\ forall X, wsum (holds X) ls = wsum (holds X) ls' + negsum ls.
+Proof. exact cost_norm. Qed.
+Print Assumptions c02_cost_sign.
+
+Example c02_cost_nonvacuous :
+  let ds := [CRule 1 [1; 2] []; CMin 2 [(1, -3); (-2, 4)]; CMin 0 [(2, 1)]; CMin 2 [(2, -1)]] in
+  exists s1 o1 s' out, cv_run false cv0 ds = Ok (s1, o1) /\ cv_call false s1 CEnd = Ok (s', out) /\
+    min_prios out = [0; 2] /\ negs ds 2 = -4 /\
+    cost_calls out 2 (fun x => x =? 2) = cost_calls ds 2 (fun a => a =? 1) - negs ds 2.
+Proof. do 4 eexists. split; [vm_compute; reflexivity|]. split; [vm_compute; reflexivity|]. vm_compute. auto. Qed.
+
+(* (4) Semantic building blocks over the reference semantics V.C02.Sem (independent of the converter model).
+   rename_iso: for a map m that is injective and positive on the atoms of P, X |-> push X and X' |-> pull X' are mutually
+   inverse bijections between the stable models of P (within `atoms`) and those of the renamed program (within m(atoms)). *)
+Theorem c02_rename_iso : forall (m : Z -> Z) (atoms : list Z),
+  (forall a b, In a atoms -> In b atoms -> m a = m b -> a = b) ->
+  (forall a, In a atoms -> 0 < a /\ 0 < m a) ->
+  forall P, Forall (rule_in atoms) P ->
+  (forall X, stable P X -> stable (map (rn_rule m) P) (push m atoms X)) /\
+  (forall X', stable (map (rn_rule m) P) X' -> stable P (pull m atoms X')) /\
+  (forall X a, (forall b, X b = true -> In b atoms) -> pull m atoms (push m atoms X) a = X a) /\
+  (forall X' x, (forall y, X' y = true -> exists a, In a atoms /\ m a = y) -> push m atoms (pull m atoms X') x = X' x).
+Proof.
+  intros m atoms Hinj Hpos P HP. split; [|split; [|split]].
+  - intros X. apply rename_sound; assumption.
+  - intros X'. apply rename_complete; assumption.
+  - intros X a. apply pull_push; assumption.
+  - intros X' x. apply push_pull.
+Qed.
+Print Assumptions c02_rename_iso.
+
+(* integrity constraints: replacing every empty disjunctive head by the atom f and requiring `not f` (the compute statement
+   emitted at every endStep) preserves the stable models; an empty choice head says nothing (it is dropped). *)
+Theorem c02_constraint_false : forall f P X, X f = false -> (stable (map (fix_empty f) P) X <-> stable P X).
+Proof. exact constraint_false. Qed.
+Print Assumptions c02_constraint_false.
+
+Example c02_sem_nonvacuous :
+  (* {a;b}. c :- a, not b.  :- b.   has exactly the stable models {} and {a,c} among the subsets of {a,b,c} *)
+  enum_stable [1; 2; 3] [mkRule true [1; 2] (BNormal []); mkRule false [3] (BNormal [1; -2]); mkRule false [] (BNormal [2])]
+  = [[]; [1; 3]].
+Proof. vm_compute. reflexivity. Qed.
+
+(* c02_equiv_partial: the one-to-one correspondence of answer sets, END TO END through the converter model, for the fragment
+   of plain rules (disjunctive / choice / empty heads, normal bodies; any number of them, any reachable start state, extensions
+   on or off): the rules the converter emits have, under push/pull along the final atom map (injective on the program's atoms),
+   exactly the stable models of the input rules, the false atom being false (the compute statement emitted at endStep).
+   push/pull are mutually inverse by c02_rename_iso.
+   MISSING for the full c02_equiv: (A) the same shape lemma for weight rules (pass-through and the `aux :- sum`, `H :- aux` split),
+   for `aux :- cond` of outputs, and for the choice rule / facts of externals; (B) defext - a fresh atom defined by one rule and
+   used positively elsewhere preserves stable models up to that atom (needs weights >= 0); (C) the composition with c02_cost, the
+   shown-name and external-status corollaries, and c02_steps.  The python oracle checks the end-to-end statement by brute force
+   on every generated small program instead (props/C02.py). *)
+Theorem c02_equiv_partial : forall ext ds s s1 out,
+  forallb is_rule ds = true -> Forall valid_ht ds -> Forall call_atoms_pos ds ->
+  cv_run ext s ds = Ok (s1, out) -> Inv s -> next s1 <= 2 ^ smid_bits ->
+  let m := img s1 in let R := rules_of ds in let atoms := flat_map rule_atoms (filter keep R) in
+  (forall a b, In a atoms -> In b atoms -> m a = m b -> a = b) /\
+  (forall X, stable R X -> stable (rules_of out) (push m atoms X) /\ push m atoms X false_atom = false) /\
+  (forall X', stable (rules_of out) X' -> X' false_atom = false -> stable R (pull m atoms X')).
+Proof. exact equiv_rules. Qed.
+Print Assumptions c02_equiv_partial.
+
+Example c02_equiv_partial_nonvacuous :
+  let ds := [CRule 1 [1; 2] []; CRule 0 [3] [1; -2]; CRule 0 [] [2]; CRule 1 [] [3]] in
+  forallb is_rule ds = true /\ Forall valid_ht ds /\ Forall call_atoms_pos ds /\
+  exists s1 out, cv_run false cv0 ds = Ok (s1, out) /\ next s1 <= 2 ^ smid_bits /\
+    rules_of out = [mkRule true [2; 3] (BNormal []); mkRule false [4] (BNormal [2; -3]); mkRule false [1] (BNormal [3])].
+Proof.
+  split; [reflexivity|]. split; [repeat (apply Forall_cons; [vm_compute; auto|]); apply Forall_nil|].
+  split; [repeat (apply Forall_cons; [split; repeat constructor; lia|]); apply Forall_nil|].
+  do 2 eexists. split; [vm_compute; reflexivity|]. split; [vm_compute; discriminate | vm_compute; reflexivity].
+Qed.
